@@ -215,4 +215,22 @@ PROPS = {
         "parts": [plain("fault-grid", "TestGrid", shards={"quick": 16, "thorough": 16}), rapid("mutations", "TestMutations", 8000, 200000)],
         "timeout": {"quick": 1200, "thorough": 7200},
     },
+    "C10": {
+        "pkg": "c10",
+        "level": "exploration",
+        "level_text": "Generated search with shrinking against an independent compositional model: the real chain and the model's layers are walked in lock step "
+                      "(same length, same Go type, Error() of every layer equal to the model text: 'prefix: cause', cause alone for an empty prefix, fmt-formatted "
+                      "text with %w rendered as the cause's text, hidden text for Handled); every wrapper keeps the root cause and every Is/As match of what it "
+                      "wraps; annotation-only wrappers keep Error(). The finite part is enumerated exhaustively: every exported wrapper constructor of the root "
+                      "package and the sub-packages x nil, every exported leaf constructor -> non-nil, with the tables checked for completeness against a go/parser "
+                      "scan of the repository.",
+        "level_note": "The model (harness/gen/model.go) is written from the README's composition table and the doc comments; it is the largest trusted component "
+                      "and is cross-checked by the round-trip checks that do not use it.",
+        "technique": "property-based testing (rapid): independent compositional model of Error() and layer types, metamorphic Is/As preservation; exhaustive nil grid",
+        "rule": "rapid-generated trees over regular strings (76 kinds); non-trivial = at least 3 message-bearing layers of at least two different roles (prefix / "
+                "full-message / leaf). Part nil-grid: all 71 wrapper constructors x nil and 20 leaf constructors, exhaustive, completeness-checked. "
+                "Distinct = hash of the case JSON.",
+        "assumptions": ["the model's reading of the documentation (Appendix A of DESIGN.md)"],
+        "parts": [rapid("compose", "TestProp", 16000, 320000), plain("nil-grid", "TestNilGrid")],
+    },
 }
